@@ -730,7 +730,11 @@ class Interp:
             size = len(node.keys)
         elif isinstance(node, ast.Call) and node.args and isinstance(node.args[0], (ast.Tuple, ast.List, ast.GeneratorExp)):
             size = len(getattr(node.args[0], "elts", ())) 
-        if size >= 8:
+        # only a *loader* (an init function: the code the probe tables feed) reading such a table mixes probe rows with the
+        # package's rows; a table of notation read by a calculator (residue names, unit prefixes ...) is none of the probes' business
+        in_loader = any(getattr(f_, "qual", "").rsplit(".", 1)[-1] in ("init", "energy_dependent_init") or getattr(f_, "qual", "").endswith("_init")
+                        for f_ in getattr(self, "dyn_stack", []))
+        if size >= 8 and in_loader:
             raise AnalysisError(f"{module}.{name}, an embedded table of {size} entries for which the analysis has no probe, is read while probe tables "
                                 f"stand for the other tables of {module}: the probes do not cover the package's data")
 
